@@ -614,7 +614,13 @@ func (t *fnTr) tail(stmts []ast.Stmt) string {
 		loop := "loop_fuel 64 (fun " + pattern(vs) + " => " + t.boolean(x.Cond) + ") (fun " + pattern(vs) + " => " + t.assignBlock(x.Body.List, vs) + ") " + tuple(vs)
 		return "(match " + loop + " with None => OutOfFuel | Some " + strings.TrimPrefix(pattern(vs), "'") + " => " + t.tail(rest) + " end)"
 	default:
-		return "(" + t.assign(s) + t.tail(rest) + ")"
+		body := "(" + t.assign(s) + t.tail(rest) + ")"
+		if as, ok := s.(*ast.AssignStmt); ok {
+			for _, e := range as.Rhs {
+				body = t.guard(e, body) // Go panics on an integer division by zero
+			}
+		}
+		return body
 	}
 }
 
